@@ -68,6 +68,9 @@ func (e *Engine) intrinsic(st *State, fn *ssa.Function, args []Value, ci ssa.Val
 		case "vImplies":
 			e.finish(st, ci, Or(Not(args[0].(*Term)), args[1].(*Term)), fd)
 			return true
+		case "vLockState":
+			e.finish(st, ci, Const(64, uint64(int64(st.lockv[lockKey(args[0].(*Ptr))]))), fd)
+			return true
 		case "vLenOf":
 			sl := args[0].(*Iface).V.(*Slice)
 			e.finish(st, ci, Const(64, uint64(sl.Len)), fd)
@@ -222,6 +225,50 @@ func (e *Engine) intrinsic(st *State, fn *ssa.Function, args []Value, ci ssa.Val
 	}
 	if short == "init" && fn.Synthetic == "package initializer" {
 		e.finish(st, ci, nil, fd)
+		return true
+	}
+	switch name {
+	case "encoding/json.Marshal":
+		// stub contract: Marshal/Unmarshal round-trip a value exactly.  The "encoding"
+		// is 16 concrete bytes: a magic tag and the id of a heap object holding a
+		// deep copy of the value, so symbolic field contents survive untouched.
+		v := args[0].(*Iface)
+		var val Value = v.V
+		if p, ok := val.(*Ptr); ok {
+			val = st.load(p)
+		}
+		id := st.alloc(e.deepCopy(st, val))
+		arr := &Array{E: make([]Value, 16)}
+		magic := "VJSONREF"
+		for i := 0; i < 8; i++ {
+			arr.E[i] = Const(8, uint64(magic[i]))
+			arr.E[8+i] = Const(8, uint64(id>>(8*uint(i)))&0xff)
+		}
+		e.finish(st, ci, &Tuple{V: []Value{&Slice{Obj: st.alloc(arr), Len: 16, Cap: 16}, (*Iface)(nil)}}, fd)
+		return true
+	case "encoding/json.Unmarshal":
+		sl := args[0].(*Slice)
+		el := e.sliceElems(st, sl)
+		if len(el) != 16 {
+			e.finish(st, ci, newErr("vjson: bad handle", nil), fd)
+			return true
+		}
+		id := 0
+		for i := 0; i < 8; i++ {
+			t := el[8+i].(*Term)
+			if !t.IsConst() {
+				panic(unsupported("json.Unmarshal of symbolic bytes"))
+			}
+			id |= int(t.C) << (8 * uint(i))
+		}
+		src, ok := st.heap[id]
+		if !ok {
+			e.finish(st, ci, newErr("vjson: dangling handle", nil), fd)
+			return true
+		}
+		dst := args[1].(*Iface).V.(*Ptr)
+		st.store(dst, e.deepCopy(st, src))
+		e.finish(st, ci, (*Iface)(nil), fd)
 		return true
 	}
 	if name == "sort.Slice" && e.harnessPkg != nil {
@@ -542,4 +589,44 @@ func (e *Engine) flushAsserts(st *State) bool {
 	e.recordViolation(st, "assert", id)
 	st.outcome = "VIOLATION " + id
 	return false
+}
+
+// deepCopy copies a value together with the maps and slices it refers to.
+func (e *Engine) deepCopy(st *State, v Value) Value {
+	switch x := v.(type) {
+	case *Struct:
+		n := &Struct{F: make([]Value, len(x.F))}
+		for i := range x.F {
+			n.F[i] = e.deepCopy(st, x.F[i])
+		}
+		return n
+	case *Array:
+		n := &Array{E: make([]Value, len(x.E))}
+		for i := range x.E {
+			n.E[i] = e.deepCopy(st, x.E[i])
+		}
+		return n
+	case *MapRef:
+		if x.Obj == 0 {
+			return x
+		}
+		mv := st.heap[x.Obj].(*MapVal)
+		nm := &MapVal{K: make([]Value, len(mv.K)), V: make([]Value, len(mv.V))}
+		for i := range mv.K {
+			nm.K[i] = e.deepCopy(st, mv.K[i])
+			nm.V[i] = e.deepCopy(st, mv.V[i])
+		}
+		return &MapRef{Obj: st.alloc(nm)}
+	case *Slice:
+		if x.Nil || x.Len == 0 {
+			return x
+		}
+		el := e.sliceElems(st, x)
+		arr := &Array{E: make([]Value, len(el))}
+		for i := range el {
+			arr.E[i] = e.deepCopy(st, el[i])
+		}
+		return &Slice{Obj: st.alloc(arr), Len: x.Len, Cap: x.Len}
+	}
+	return v
 }
